@@ -21,6 +21,23 @@ def main(argv):
     tmp = tempfile.mkdtemp(prefix=f"vf_{prop}_")
     sh.tmp = tmp
     cwd = os.getcwd()
+    entered = None
+    if os.environ.get("VF_COVER") == "1" and hasattr(sys, "monitoring"):
+        # function-level coverage of the repository under test (diagnostic only: which
+        # functions of the anchor files a workload ever enters; tools/anchor_coverage.py)
+        entered = set()
+        mon = sys.monitoring
+        tool = mon.COVERAGE_ID
+        mon.use_tool_id(tool, "vf-cover")
+        root = os.path.join(core.REPO, "pyyeti") + os.sep
+
+        def on_start(code, offset):
+            fn = code.co_filename
+            if fn.startswith(root):
+                entered.add((fn[len(root):], code.co_qualname, code.co_firstlineno))
+            return mon.DISABLE
+        mon.register_callback(tool, mon.events.PY_START, on_start)
+        mon.set_events(tool, mon.events.PY_START)
     try:
         os.chdir(tmp)
         if "_ambient" in params:
@@ -35,6 +52,8 @@ def main(argv):
     finally:
         os.chdir(cwd)
         shutil.rmtree(tmp, ignore_errors=True)
+    if entered is not None:
+        res["entered"] = sorted(entered)
     with open(out, "w") as f:
         json.dump(res, f)
     return 0
